@@ -2,10 +2,16 @@ package world
 
 import (
 	"bytes"
+	"encoding"
+	"encoding/binary"
 	"encoding/json"
 	"fmt"
+	rhp3 "go.sia.tech/core/rhp/v3"
+	rhp4 "go.sia.tech/core/rhp/v4"
+	"reflect"
 	"regexp"
 	"time"
+	"verif/sim"
 
 	"go.sia.tech/core/consensus"
 	"go.sia.tech/core/types"
@@ -214,6 +220,7 @@ func (w *World) apiBlock(n *Node, e *blockEntry) {
 		return
 	}
 	w.apiPolicy(n)
+	w.apiTextReuse()
 	b := e.b
 	var gb types.Block
 	js := w.apiRoundTrip(fmt.Sprintf("block %s (height %d)", short(e.id), e.height), b, &gb, func() bool { return bytes.Equal(fullBlockBytes(gb), fullBlockBytes(b)) && gb.ID() == b.ID() })
@@ -291,4 +298,107 @@ func (w *World) apiPolicy(n *Node) {
 			w.violate(w.propAmong("C10", "C20"), "text-unmarshal-panic", fmt.Sprintf("ParseSpendPolicy(%q) panicked: %s", mut, pn))
 		}
 	}
+}
+
+// textLeaf is a value with a text form of its own.
+type textLeaf interface {
+	encoding.TextMarshaler
+	encoding.TextUnmarshaler
+}
+
+// apiTextReuse parses text forms into a variable that has held another value
+// before (a client polling an endpoint into one struct): what was there must
+// not show through.
+func (w *World) apiTextReuse() {
+	t := w.tape
+	kinds := []struct {
+		name string
+		size int
+		mk   func() textLeaf
+	}{
+		{"consensus.Work", 32, func() textLeaf { return new(consensus.Work) }},
+		{"types.Currency", 16, func() textLeaf { return new(types.Currency) }},
+		{"types.Hash256", 32, func() textLeaf { return new(types.Hash256) }},
+		{"types.Address", 32, func() textLeaf { return new(types.Address) }},
+		{"types.BlockID", 32, func() textLeaf { return new(types.BlockID) }},
+		{"types.PublicKey", 32, func() textLeaf { return new(types.PublicKey) }},
+		{"types.Signature", 64, func() textLeaf { return new(types.Signature) }},
+		{"types.Specifier", 16, func() textLeaf { return new(types.Specifier) }},
+		{"types.ChainIndex", 40, func() textLeaf { return new(types.ChainIndex) }},
+		{"types.TransactionID", 32, func() textLeaf { return new(types.TransactionID) }},
+		{"types.SiacoinOutputID", 32, func() textLeaf { return new(types.SiacoinOutputID) }},
+		{"types.SiafundOutputID", 32, func() textLeaf { return new(types.SiafundOutputID) }},
+		{"types.FileContractID", 32, func() textLeaf { return new(types.FileContractID) }},
+		{"types.AttestationID", 32, func() textLeaf { return new(types.AttestationID) }},
+		{"rhp4.Account", 32, func() textLeaf { return new(rhp4.Account) }},
+		{"rhp3.Account", 32, func() textLeaf { return new(rhp3.Account) }},
+		{"rhp4.ProtocolVersion", 3, func() textLeaf { return new(rhp4.ProtocolVersion) }},
+		{"types.UnlockKey", 0, func() textLeaf { return new(types.UnlockKey) }},
+	}
+	k := kinds[t.Choose(len(kinds))]
+	draw := func(salt uint64) []byte {
+		if k.name == "types.UnlockKey" {
+			var uk types.UnlockKey
+			alg := "abcXYZ0123456789"[:t.Range(0, 16)]
+			copy(uk.Algorithm[:], alg)
+			uk.Key = sim.HashBytes("api-reuse-key", uint64(t.Choose(1<<20)), salt, t.Range(0, 40))
+			var buf bytes.Buffer
+			e := types.NewEncoder(&buf)
+			uk.EncodeTo(e)
+			e.Flush()
+			return buf.Bytes()
+		}
+		b := sim.HashBytes("api-reuse", uint64(t.Choose(1<<20)), salt, k.size)
+		if k.name == "types.Specifier" {
+			for i := range b {
+				b[i] = "abcXYZ019 "[b[i]%10]
+			}
+			for i := t.Range(1, k.size); i < k.size; i++ {
+				b[i] = 0
+			}
+			return b
+		}
+		// numbers of every width: leading (or, little-endian, trailing) zero bytes
+		z := t.Choose(k.size)
+		if t.Chance(1, 3) {
+			z = 0
+		}
+		for i := 0; i < z; i++ {
+			if k.name == "types.Currency" {
+				b[k.size-1-i] = 0
+			} else if k.name == "consensus.Work" {
+				b[i] = 0
+			}
+		}
+		return b
+	}
+	first, second, fresh := k.mk(), k.mk(), k.mk()
+	set := func(v textLeaf, b []byte) {
+		if c, ok := v.(*types.Currency); ok {
+			*c = types.NewCurrency(binary.LittleEndian.Uint64(b[:8]), binary.LittleEndian.Uint64(b[8:]))
+			return
+		}
+		if pv, ok := v.(*rhp4.ProtocolVersion); ok {
+			copy(pv[:], b)
+			return
+		}
+		v.(types.DecoderFrom).DecodeFrom(types.NewBufDecoder(b))
+	}
+	set(first, draw(1))
+	set(second, draw(2))
+	txt, err := second.MarshalText()
+	if err != nil {
+		w.violate("C20", "text-marshal", fmt.Sprintf("%s: MarshalText failed: %v", k.name, err))
+		return
+	}
+	if err := fresh.UnmarshalText(txt); err != nil || !reflect.DeepEqual(fresh, second) {
+		w.violate("C20", "text-roundtrip-differs", fmt.Sprintf("%s %s does not parse back from its own text form: got %v (%v)", k.name, txt, fresh, err))
+		return
+	}
+	was, _ := first.MarshalText()
+	if err := first.UnmarshalText(txt); err != nil || !reflect.DeepEqual(first, second) {
+		w.violate("C20", "text-roundtrip-differs", fmt.Sprintf("%s: %q parsed into a variable that held %s gives %v (%v); parsed into a new variable it gives %v", k.name, txt, was, first, err, fresh))
+		return
+	}
+	w.stats.Inc("probe.api.text-into-used-variable")
 }
